@@ -7,6 +7,8 @@ import PrologVerif.Driver.C14
 import PrologVerif.Driver.C11
 import PrologVerif.Driver.C19
 import PrologVerif.Driver.C07
+import PrologVerif.Driver.C12
+import PrologVerif.Driver.C15
 open PrologVerif PrologVerif.Driver
 
 def handlers : List (String × Handler) :=
@@ -25,7 +27,12 @@ def handlers : List (String × Handler) :=
     ("c19.ops", C19.handler),
     ("c19.out", C19.outHandler),
     ("c07.kernels", C07.kernelsHandler),
-    ("c07.queries", C07.queriesHandler) ]
+    ("c07.queries", C07.queriesHandler),
+    ("c12.seq", C12.seqHandler),
+    ("c12.inter", C12.interHandler),
+    ("c15.args", C15.argsHandler),
+    ("c15.scan", C15.scanHandler),
+    ("c15.ops", C15.opsHandler) ]
 
 partial def loop (h : IO.FS.Stream) (out : IO.FS.Stream) (f : Handler) : IO Unit := do
   let line ← h.getLine
